@@ -49,7 +49,7 @@ class Cfg:
     def __init__(self, naming="distinct", method_form=0.3, members=None, called_lambdas=True, odd_selectors=False,
                  containers=True, ifexp=True, keywords_in_called=True, first=True, lists=True, dict_attr=True,
                  comprehension=False, count_fn=True, first_on_seq=True, genexp=False,
-                 captures=False, helpers=False, record_ctor=False, free_scalar=False, first_of_packages=True, higher_order=False, kwonly_in_called=False, dict_method_keys=False, duplicate_keys=True, seq_of_packages=False, starred_literals=False, starred_calls=False, callable_fields=False):
+                 captures=False, helpers=False, record_ctor=False, free_scalar=False, first_of_packages=True, higher_order=False, kwonly_in_called=False, dict_method_keys=False, duplicate_keys=True, seq_of_packages=False, starred_literals=False, starred_calls=False, callable_fields=False, odd_operator_lambdas=False):
         self.naming = naming
         self.method_form = method_form
         self.members = members or MEMBERS
@@ -77,6 +77,7 @@ class Cfg:
         self.starred_literals = starred_literals
         self.starred_calls = starred_calls or starred_literals
         self.callable_fields = callable_fields
+        self.odd_operator_lambdas = odd_operator_lambdas
         self.free_scalar = free_scalar
 
 
@@ -462,6 +463,17 @@ def _recv(s: str) -> str:
 
 
 def _op(cx: Ctx, op, src, lam):
+    if cx.cfg.odd_operator_lambdas and cx.chance(1):
+        # the operator's lambda declares its parameter positional-only, or has a second, defaulted parameter that it uses
+        import re
+
+        m = re.match(r"lambda (\w+): (.*)$", lam, re.S)
+        if m and "kk_" not in lam:
+            v, body = m.group(1), m.group(2)
+            if op == "Where" and cx.chance(5):
+                lam = f"lambda {v}, kk_=1: ({body}) and kk_ == 1"
+            else:
+                lam = f"lambda {v}, /: {body}"
     if cx.chance(int(cx.cfg.method_form * 10)):
         return f"{_recv(src)}.{op}({lam})"
     return f"{op}({src}, {lam})"
